@@ -46,6 +46,9 @@ CLAIMED = {
  "C10": ("model_checking", "bounded symbolic execution of linear.TransformImageColor with all pixel bytes symbolic and a symbolically keyed per-colour function, compared byte-for-byte with a reference built by the standard library's Set; uninterpreted per-colour functions for the wiring of the 8 public transforms",
          "For each explored (source type, destination type, geometry, destination origin, parallelism) configuration and all pixel contents and keys at once, the destination parent's storage equals the reference (per-pixel function at dst.Min+(p-src.Min), everything else untouched); in-place use equals the function of the original pixels; each public image transform is TransformImageColor with its own package's per-colour function.",
          "Trusted: executor (merging/if-conversion cross-validated natively), z3, image/color and image Set/At as the definition of colour-model conversion; workers run sequentially (C11 covers their independence). f ranges over an XOR-keyed family (symbolic keys), not all functions.", "DESIGN.md 5 C10"),
+ "C11": ("other", "happens-before encoding (SMT over integer timestamps, sequentially consistent interleavings) built from the symbolic executor's access logs of the real code; models replayed under the Go race detector",
+         "For every lazily initialised function and for the worker goroutines of TransformImageColor, no scenario of 2-3 concurrent callers (first caller, a caller finding the Once taken, a later caller) admits a sequentially consistent execution with two conflicting plain accesses unordered by happens-before. Not a sampling of schedules: the interleaving is a solver variable.",
+         "Trusted: executor's access log (cell identity, at most 6 events per instruction), the Go memory model's contracts for sync.Once/WaitGroup/go as stated; caller control flow restricted to the observed variants; loaders/helpers only through the worker scenario. Level 'other': a model of the memory model, not of the runtime.", "DESIGN.md 5 C11"),
  "C12": ("model_checking", "symbolic execution in exact real arithmetic with rational-function tracking; polynomial (in)equalities decided by z3/cvc5 (NRA)",
          "For all valid white-point pairs: A->B maps white A to white B within 1e-6, equals the Bradford-method matrix built independently from the published constants within 1e-6 per entry, A->A is the identity, xyY and XYZ constructors coincide, Apply is the matrix-vector product. Round trip A->B->A is in the thorough tier; three-point composition is attempted there and reported as a reduced bound if undecided.",
          "Trusted: executor, solvers; float rounding not modelled (exact reals over the float64-rounded constants the code uses): rounding budget assumption.", "DESIGN.md 5 C12"),
